@@ -246,7 +246,8 @@ int main(int argc, char** argv) {
             viol("returned-assignment-violates-constraints", "values " + vs + ": " + desc);
         }
         // incremental use of the same solver object: more constraints (and tightenings) between the existing variables, solve again
-        if (s.nv >= 2 && r.below(100) < 25) {
+        int nEngineConstr = 0; for (auto& c0 : s.cons) nEngineConstr += c0.kind == 2 ? 2 : 1;      // an equality is stored as two inequalities
+        if (s.nv >= 2 && r.below(100) < 25 && nEngineConstr + 6 <= 192) {
             Sys s2 = s;
             int extra = 1 + r.below(3);
             for (int k = 0; k < extra; k++) {
